@@ -233,13 +233,13 @@ MUTANTS.update({
     ('space-check-outside-lock', [(C, "        datapoint_index = self._pop(metric)\n        self._check_available_space()\n      return", "        datapoint_index = self._pop(metric)\n      self._check_available_space()\n      return")]),
     ('watermark-le', [(C, "    if state.cacheTooFull and self.size < settings.CACHE_SIZE_LOW_WATERMARK:", "    if state.cacheTooFull and self.size < settings.CACHE_SIZE_LOW_WATERMARK - 1:")]),
     ('queuefull-not-rearmed', [(CL, "      self.queueFull = Deferred()\n      self.queueFull.addCallbacks(self.queueFullCallback, log.err)\n      state.events.cacheSpaceAvailable()", "      state.events.cacheSpaceAvailable()")]),
-    ('late-receiver-not-paused', [(P, "    if state.metricReceiversPaused:\n      self.pauseReceiving()\n      if not", "    if False:\n      self.pauseReceiving()\n      if not")]),
-    ('connect-subscribe-late', [(P, "    if settings.USE_FLOW_CONTROL:\n      events.resumeReceivingMetrics.addHandler(self.resumeReceiving)\n      events.pauseReceivingMetrics.addHandler(self.pauseReceiving)\n\n    if state.metricReceiversPaused:",
-                                 "    if state.metricReceiversPaused:"),
+    ('late-receiver-not-paused', [(P, "      if state.metricReceiversPaused:\n        self.pauseReceiving()\n        if not", "      if False:\n        self.pauseReceiving()\n        if not")]),
+    ('connect-subscribe-late', [(P, "    if settings.USE_FLOW_CONTROL:\n      events.resumeReceivingMetrics.addHandler(self.resumeReceiving)\n      events.pauseReceivingMetrics.addHandler(self.pauseReceiving)\n",
+                                 "    if settings.USE_FLOW_CONTROL:\n"),
                                 (P, "    state.connectedMetricReceiverProtocols.add(self)\n    checkIfAcceptingConnections()\n", "    state.connectedMetricReceiverProtocols.add(self)\n    checkIfAcceptingConnections()\n    if settings.USE_FLOW_CONTROL:\n      events.pauseReceivingMetrics.addHandler(self.pauseReceiving)\n      events.resumeReceivingMetrics.addHandler(self.resumeReceiving)\n")]),
-    ('no-recheck-after-pause', [(P, "      if not state.metricReceiversPaused:\n        # resumed in the meantime, possibly before our handler was called\n        self.resumeReceiving()\n", "")]),
+    ('no-recheck-after-pause', [(P, "        if not state.metricReceiversPaused:\n          # resumed in the meantime, possibly before our handler was called\n          self.resumeReceiving()\n", "")]),
     ('plain-lock', [(C, "self.lock = threading.RLock()", "self.lock = threading.Lock()")]),
-    ('pause-subscribed-first', [(P, "      events.resumeReceivingMetrics.addHandler(self.resumeReceiving)\n      events.pauseReceivingMetrics.addHandler(self.pauseReceiving)\n\n    if state.metricReceiversPaused:", "      events.pauseReceivingMetrics.addHandler(self.pauseReceiving)\n      events.resumeReceivingMetrics.addHandler(self.resumeReceiving)\n\n    if state.metricReceiversPaused:")]),
+    ('pause-subscribed-first', [(P, "      events.resumeReceivingMetrics.addHandler(self.resumeReceiving)\n      events.pauseReceivingMetrics.addHandler(self.pauseReceiving)\n\n      # Only", "      events.pauseReceivingMetrics.addHandler(self.pauseReceiving)\n      events.resumeReceivingMetrics.addHandler(self.resumeReceiving)\n\n      # Only")]),
     ('resume-wiring-removed', [('lib/carbon/service.py', "  writer_service = WriterService()\n  writer_service.setServiceParent(root_service)\n\n  if settings.USE_FLOW_CONTROL:\n    events.cacheFull.addHandler(events.pauseReceivingMetrics)\n    events.cacheSpaceAvailable.addHandler(events.resumeReceivingMetrics)",
                                 "  writer_service = WriterService()\n  writer_service.setServiceParent(root_service)\n\n  if settings.USE_FLOW_CONTROL:\n    events.cacheFull.addHandler(events.pauseReceivingMetrics)")]),
     ('space-event-only-when-empty', [(CL, "    if (self.factory.queueFull.called and queueSize < SEND_QUEUE_LOW_WATERMARK):", "    if (self.factory.queueFull.called and queueSize < SEND_QUEUE_LOW_WATERMARK and queueSize != 1):")]),
